@@ -599,6 +599,10 @@ def work(task):
         from mc.checks import c06b
 
         return c06b.work(hists)
+    if what == "bsamp":
+        from mc.checks import c06c
+
+        return c06c.work(hists)
     res = Res()
     for hist in hists:
         n0 = res.n
@@ -655,8 +659,12 @@ def run(ctx):
     from mc.checks import c06b
 
     bt = c06b.tasks(quick)
-    tasks = bt + tasks
+    from mc.checks import c06c
+
+    st = c06c.tasks(quick)
+    tasks = st + bt + tasks
     ctx.cov["bosonic_cat_postselection_cases"] = sum(len(t[3]) for t in bt)
+    ctx.cov["bosonic_sampled_dyne_cases"] = sum(len(t[3]) for t in st)
     for r in ctx.pmap(work, tasks):
         ctx.add(r)
         if ctx.time_left() < 0:
@@ -690,6 +698,10 @@ def replay(case):
         from mc.checks import c06b
 
         return c06b.replay(case)
+    if case.get("bosonic_sampled"):
+        from mc.checks import c06c
+
+        return c06c.replay(case)
     if case.get("collation"):
         check_collation(case["n"], res)
         return [(s, w) for s, w, c in res.viol if c["modes"] == case["modes"] and c["split"] == case["split"]]
